@@ -10,7 +10,7 @@
 -/
 import IbicusModel.Lemmas.Grid
 import IbicusModel.Lemmas.GridState
-import IbicusModel.Lemmas.GenGridDispatch
+import IbicusModel.Lemmas.GenGridLoops
 
 namespace Props.C13
 open Model.Grid Lemmas.Grid Lemmas.GridState
@@ -345,20 +345,42 @@ example : applySerialSt (fun s c => ((damaging 0 c).1, s)) true 2 1 2 0 =
 
 end Example
 
-/-! ### dispatch -/
+/-! ### dispatch and the catch wrapper, read from the source (tier A, semantic: `Gen/GridLoops.lean`, `Lemmas.GenGridLoops`) -/
 
-open Model.GridDispatch in
-/-- **all four call sites hand the caller's failsafe flag to the map function** (tier A: the table is regenerated from the
-    source), so the theorems above apply to `Debiaser.apply` and `DeltaChange.apply`, serial and parallel -/
-theorem dispatch_forwards_failsafe (p : Path) (hp : p ∈ paths) (fs : Bool) : failsafeOf p fs = some fs := by
-  simp only [paths, List.mem_cons, List.not_mem_nil, or_false] at hp
-  rcases hp with rfl | rfl | rfl | rfl <;> rfl
+open Model.GridLoops in
+/-- **all four call sites hand the caller's failsafe flag to the map function, and both map functions hand theirs to the
+    catch wrapper** (stated on the specs regenerated from the source): whatever `apply` is called with, the flag the
+    wrapper runs with at every cell is `apply`'s `failsafe` argument — so the theorems above apply to `Debiaser.apply` and
+    `DeltaChange.apply`, serial and parallel -/
+theorem dispatch_forwards_failsafe {κ : Type} (b : BranchCall)
+    (hb : b ∈ [Gen.GridLoops.applyDebiaser.parallelBranch, Gen.GridLoops.applyDebiaser.serialBranch,
+               Gen.GridLoops.applyDeltaChange.parallelBranch, Gen.GridLoops.applyDeltaChange.serialBranch])
+    (E : ApplyEnv κ α ε) :
+    (branchEnv b E).failsafe = some E.failsafe ∧
+    evalFlag Gen.GridLoops.catchSpec.flagDefault ((branchEnv b E).failsafe.getD Gen.GridLoops.serialSpec.failsafeDefault)
+        Gen.GridLoops.serialSpec.call.failsafe = E.failsafe ∧
+    evalFlag Gen.GridLoops.catchSpec.flagDefault ((branchEnv b E).failsafe.getD Gen.GridLoops.parallelSpec.failsafeDefault)
+        Gen.GridLoops.parallelSpec.call.failsafe = E.failsafe := by
+  simp only [List.mem_cons, List.not_mem_nil, or_false] at hb
+  rcases hb with rfl | rfl | rfl | rfl <;> exact ⟨rfl, rfl, rfl⟩
 
-open Model.GridDispatch in
-/-- the wrapper catches `Exception` only, returns the scalar `np.nan` in failsafe mode and re-raises unchanged otherwise -/
+open Model.GridLoops in
+/-- the wrapper (regenerated from the source) calls `func(a0, a1, a2, **kwargs)` on its three data parameters in order,
+    catches `Exception` only, tests its flag parameter (default `False`), returns the scalar `np.nan` in failsafe mode and
+    re-raises unchanged otherwise -/
 theorem catch_wrapper_statements :
-    fact "catch.except" = some "Exception" ∧ fact "catch.test" = some "failsafe" ∧
-    fact "catch.failsafe_exits" = some "return np.nan" ∧ fact "catch.else" = some "raise" ∧
-    fact "catch.try" = some "return func(obs, cm_hist, cm_future, **kwargs)" := by decide +kernel
+    Gen.GridLoops.catchSpec.excClass = .exception ∧ Gen.GridLoops.catchSpec.flagDefault = false ∧
+    Gen.GridLoops.catchSpec.onTrue = .returnNan ∧ Gen.GridLoops.catchSpec.onFalse = .reraise ∧
+    Gen.GridLoops.catchSpec.tryArgs = (.a0, .a1, .a2) ∧ Gen.GridLoops.catchSpec.tryStarKw = true := by decide
+
+open Model.GridLoops in
+/-- **what the wrapper does, read from the source**: for every exception type, subclass relation `isa`, location function,
+    keyword arguments, flag and data arguments it is `runCatch` (the function the theorems above are stated on) of
+    `func(a0, a1, a2, **kwargs)` -/
+theorem catch_wrapper_denotes {κ : Type} (isa : String → ε → Bool) (loc : LocFnKw κ α ε) (kw noKw : κ) (fs : Bool)
+    (a : ArgIx → List α) :
+    denoteCatch Gen.GridLoops.catchSpec isa loc kw noKw fs a = runCatch fs (loc kw (a .a0) (a .a1) (a .a2)) := by
+  rw [Lemmas.GenGridLoops.catchSpec]
+  exact Lemmas.GenGridLoops.denote_catch isa loc kw noKw fs a
 
 end Props.C13
